@@ -60,6 +60,13 @@ def confirm(cand, name):
             return False
         rc, out = sh(["git", "apply", patch], cwd=wt)
         if rc != 0:
+            rc, out = sh(["git", "apply", "--3way", patch], cwd=wt)
+            sh(["git", "reset", "-q"], cwd=wt)
+            if rc == 0:
+                # /repo HEAD moved since the candidate was written: keep the patch as it applies now
+                rc2, newdiff = sh(["git", "diff"], cwd=wt)
+                open(patch, "w").write(newdiff)
+        if rc != 0:
             print("REJECT %s: patch does not apply\n%s" % (name, out[-800:]))
             return False
         rc, out = sh(["go", "build", "./..."], cwd=wt)
